@@ -48,6 +48,14 @@ def gen_flows(rng, n):
 
 
 def cases(tier, seed):
+    # an outlay and returns on every scale of amount and of holding period: the root does not depend on the unit the amounts are stated in,
+    # and short periods make it large
+    for scale in (1, 1e-3, 1e-6, 0.01, 1e3, 1e6):
+        for fl, days in (([-1000, 300, 400, 500], [43831, 44196, 44561, 44926]), ([-1000, 1100], [43831, 43845]), ([-1000, 1100], [43831, 43862]),
+                         ([-500, 100, 100, 100, 100, 100, 100], [43831 + 30 * i for i in range(7)]), ([-100, 60, 60], [43831, 43891, 43951]),
+                         ([-1.0, 0.3, 0.4, 0.5], [43831, 44196, 44561, 44926]), ([-2] + [1] * 12, [43831 + 91 * i for i in range(13)])):
+            yield dict(kind='xirr', flows=[v * scale for v in fl], days=days)
+            yield dict(kind='irr', flows=[v * scale for v in fl])
     rng = random.Random(seed + 20)
     N = 150 if tier == 'quick' else 2500
     rates = [0, 0.05, -0.5, -0.89, 1.0, 10, 0.001, 0.12 / 12]
@@ -168,6 +176,6 @@ def oracle(c):
 
 DRIVERS = [
     Driver('C20/B3.equations', cases, oracle, nchunks=8,
-           rule='seeded: rates in (-0.9, 10] incl. 0; NPV definition, linearity, rate 0; PMT/PV closed forms with fv and both timings, PV(PMT) inversion, rate-0 reductions; SLN; IRR and XIRR against the bisection root of the reference NPV/XNPV for flows with one sign change and positive sum (<= 30 flows, increasing dates); XNPV definition and linearity',
+           rule='7 outlay-and-returns schedules (yearly, 14 / 31 days, monthly, quarterly) x 6 scales of the amounts (1e-6 .. 1e6): IRR / XIRR root; seeded: rates in (-0.9, 10] incl. 0; NPV definition, linearity, rate 0; PMT/PV closed forms with fv and both timings, PV(PMT) inversion, rate-0 reductions; SLN; IRR and XIRR against the bisection root of the reference NPV/XNPV for flows with one sign change and positive sum (<= 30 flows, increasing dates); XNPV definition and linearity',
            bound='150 (quick) / 2500 (thorough) draws of each kind'),
 ]
